@@ -267,10 +267,29 @@ def r4(ctx: Ctx, m):
       c = wc[0]
       targ = [unparse(a) for a in c.args] + [unparse(k.value) for k in c.keywords
                                             if k.arg in ('timeout', None)]
-      if not any('timeout' in t for t in targ):
+      if not (c.args or any(k.arg == 'timeout' for k in c.keywords)):
         ctx.fail(rule, fi, c, 'wait() is called without the configured timeout:'
                  ' a starved get/put blocks forever instead of raising'
                  ' TimeoutError')
+        continue
+      # ... and it IS the configured timeout: self.timeout itself, or a local every
+      # definition of which is self.timeout (no branch substitutes None / another value)
+      tv = (c.args[0] if c.args else next(k.value for k in c.keywords if k.arg == 'timeout'))
+
+      def configured(e, depth=0):
+        if is_self_attr(e, 'timeout'):
+          return True
+        if isinstance(e, ast.Name) and depth < 3:
+          defs = [x.value for x in walk_no_nested(fi.node) if isinstance(x, ast.Assign) and any(
+              isinstance(t_, ast.Name) and t_.id == e.id for t_ in x.targets)]
+          return bool(defs) and all(configured(d, depth + 1) for d in defs)
+        return False
+
+      if not configured(tv):
+        ctx.fail(rule, fi, f'{fi.qualname}: wait(timeout=<the configured timeout>)',
+                 f'`{unparse(c)}` does not wait with the configured `self.timeout` on every path'
+                 f' (`{unparse(tv)}` can be another value, e.g. None): the starved side then blocks'
+                 ' for ever instead of raising TimeoutError', node=c)
         continue
       if n.kind != 'cond':
         ctx.fail(rule, fi, c, 'the result of wait(timeout=...) is ignored: a'
@@ -784,6 +803,12 @@ VARIANTS = [
       '      raise e\n    while not self.enqueue_done:\n      try:\n        self.put(next(iterator))',
       '      raise e\n    while True:\n      try:\n        self.put(next(iterator))',
       'R-C05-3'),
+    B('blocking-batch-waits-without-timeout', _F,
+      '          if self._dequeue_lock.wait(timeout=self.timeout):\n            continue\n          if result:',
+      '          timeout = None if block and result else self.timeout\n          if self._dequeue_lock.wait(timeout=timeout):\n            continue\n          if result:', 'R-C05-4'),
+    OK('wait-timeout-through-local', _F,
+       '          if self._dequeue_lock.wait(timeout=self.timeout):\n            continue\n          if result:',
+       '          patience = self.timeout\n          if self._dequeue_lock.wait(timeout=patience):\n            continue\n          if result:'),
     B('revert-async-loop-tests-stop', _F,
       '    while not self.enqueue_done:\n      try:\n        value = await asyncio.wait_for(anext(iterator), self.timeout)',
       '    while True:\n      try:\n        value = await asyncio.wait_for(anext(iterator), self.timeout)', 'R-C05-3'),
